@@ -287,3 +287,32 @@ package main
 //@   loop 1: invariant rdr == old(rdr) && expect == old(expect) && 0 <= cursor(rdr) && cursor(rdr) <= streamlen(rdr) && cursor(rdr) + len(cmp) == len(expect) && cmp == expect[cursor(rdr):]
 //@   loop 1: invariant forall k int :: 0 <= k && k < cursor(rdr) ==> streamat(rdr, k) == expect[k]
 //@   loop 1: invariant forall k int :: 0 <= k && k < len(expect) ==> expect[k] == old(expect[k])
+
+// EmptyTrash's per-file action (closure doFile): a file is removed only if its
+// path is a trash name (<32 hex>.trash.<deadline>) and the deadline - in whole
+// seconds - is not in the future.
+//@ func UnixVolume.EmptyTrash$1 property C04 safety -bounds
+//@   ghost dl int64 = 0
+//@   ghost ok bool = false
+//@   ghost now int64 = 0
+//@   calls strconv.ParseInt#1: requires $0 == matches[2] && $1 == 10
+//@   calls strconv.ParseInt#1: set dl = $r0
+//@   calls strconv.ParseInt#1: set ok = ($r1 == nil)
+//@   calls time.Time.Unix#1: set now = $r
+//@   calls osWithStats.Remove#1: requires matches(path, `.*/([0-9a-f]{32})\.trash\.(\d+)`) && ok && dl <= now && $0 == path
+
+// Untrash: only a file named <loc>.trash.<something> in the block's directory
+// is renamed, and only onto the block's own path; never on a read-only volume.
+//@ func UnixVolume.Untrash property C04 safety -bounds
+//@   calls osWithStats.Rename#1: requires !old(v.volume.ReadOnly) && strings.HasPrefix(FileInfo.Name(f), loc + ".trash.")
+
+// handleDELETE: blocks are trashed only for a token allowed to delete, only
+// with trashing enabled, and only on writable volumes.
+//@ func router.canDelete trusted pure
+//@   modifies nothing
+//@ func router.handleDELETE property C04 safety -bounds
+//@   ghost allowed bool = false
+//@   ghost writable bool = false
+//@   calls router.canDelete#1: set allowed = $r
+//@   calls RRVolumeManager.AllWritable#1: set writable = true
+//@   calls Volume.Trash#1: requires allowed && old(rtr.cluster.Collections.BlobTrash) && writable && $0 == hash
